@@ -114,7 +114,7 @@ func (p *c11) Bounds(tier string) map[string]interface{} {
 }
 
 var c11Places = []string{"leaf", "container", "list", "leaf-list", "choice", "case", "uses", "augment", "uses-augment", "refine", "two-if-features", "anydata", "rpc", "notification",
-	"case-in-augment", "leaf-in-augment-of-choice", "case-in-uses-augment", "case-in-grouping", "leaf-in-grouping", "action", "action-in-grouping", "notification-in-grouping", "leaf-in-submodule", "augment-in-submodule", "features-in-submodule", "both-in-submodule", "uses-in-augment", "uses-in-case", "choice-in-case", "action-in-augment", "notification-in-augment", "action-in-uses-augment", "notification-in-uses-augment", "action-in-submodule", "leaf-in-rpc-input", "leaf-in-notification", "leaf-in-action-output", "refine-with-the-guard-of-its-target", "leaf-in-case-found-by-name", "leaf-in-nested-case-found-by-name", "container-in-case-found-by-name"}
+	"case-in-augment", "leaf-in-augment-of-choice", "case-in-uses-augment", "case-in-grouping", "leaf-in-grouping", "action", "action-in-grouping", "notification-in-grouping", "leaf-in-submodule", "augment-in-submodule", "features-in-submodule", "both-in-submodule", "uses-in-augment", "uses-in-case", "choice-in-case", "action-in-augment", "notification-in-augment", "action-in-uses-augment", "notification-in-uses-augment", "action-in-submodule", "leaf-in-rpc-input", "leaf-in-notification", "leaf-in-action-output", "first-of-three-in-uses-augment", "first-of-three-in-augment", "first-of-three-in-grouping", "first-of-three-in-case", "refine-with-the-guard-of-its-target", "leaf-in-case-found-by-name", "leaf-in-nested-case-found-by-name", "container-in-case-found-by-name"}
 
 func (p *c11) Cases(tier string, emit func(interface{})) {
 	L := c11L(tier)
@@ -418,6 +418,10 @@ var c11Templates = map[string]c11Template{
 	"leaf-in-rpc-input":                   {text: `rpc r { input { leaf x { %s type string; } leaf keep { type string; } } } }`, probe: "r/input/x"},
 	"leaf-in-action-output":               {text: `container u { action r { output { leaf x { %s type string; } leaf keep { type string; } } } } }`, probe: "u/r/output/x"},
 	"leaf-in-notification":                {text: `notification n { leaf x { %s type string; } leaf keep { type string; } } }`, probe: "n/x"},
+	"first-of-three-in-uses-augment":      {text: `grouping g { container gc { leaf keep { type string; } } } container u { uses g { augment gc { leaf x { %s type string; } leaf after { type string; } action act { input { leaf i { type string; } } } notification note { leaf e { type string; } } } } } }`, probe: "u/gc/x"},
+	"first-of-three-in-augment":           {text: `container u { leaf keep { type string; } } augment "/u" { leaf x { %s type string; } leaf after { type string; } action act { input { leaf i { type string; } } } notification note { leaf e { type string; } } } }`, probe: "u/x"},
+	"first-of-three-in-grouping":          {text: `grouping g { leaf x { %s type string; } leaf after { type string; } leaf keep { type string; } action act { input { leaf i { type string; } } } } container u { uses g; } }`, probe: "u/x"},
+	"first-of-three-in-case":              {text: `container u { choice ch { case k { leaf x { %s type string; } leaf after { type string; } leaf keep { type string; } } } } }`, probe: "u/x"},
 	"refine-with-the-guard-of-its-target": {text: `grouping g { leaf x { %s type string; } leaf keep { type string; } } container u { uses g { refine x { %s description "refined"; } } } }`, probe: "u/x"},
 	"leaf-in-case-found-by-name":          {text: `container u { choice ch { case k { leaf x { %s type string; } leaf keep { type string; } } } } }`, probe: "u/x"},
 	"leaf-in-nested-case-found-by-name":   {text: `container u { choice ch { case k { choice in { case j { leaf x { %s type string; } } } leaf keep { type string; } } } } }`, probe: "u/x"},
@@ -438,15 +442,58 @@ func c11Probe(m *meta.Module, place string) (present bool, extra string) {
 		}
 		return x.Description() == "refined", extra
 	}
+	// whatever the guard says, the unguarded neighbours of the guarded node stay
+	var walk func(d meta.Meta, found map[string]bool, depth int)
+	walk = func(d meta.Meta, found map[string]bool, depth int) {
+		if d == nil || depth > 8 {
+			return
+		}
+		if id, ok := d.(meta.Identifiable); ok {
+			found[id.Ident()] = true
+		}
+		if ch, ok := d.(*meta.Choice); ok {
+			for _, cs := range ch.Cases() {
+				walk(cs, found, depth+1)
+			}
+		}
+		if h, ok := d.(meta.HasDataDefinitions); ok {
+			for _, c := range h.DataDefinitions() {
+				walk(c, found, depth+1)
+			}
+		}
+		if h, ok := d.(meta.HasActions); ok {
+			for _, a := range h.Actions() {
+				found[a.Ident()] = true
+				if in := a.Input(); in != nil {
+					walk(in, found, depth+1)
+				}
+				if out := a.Output(); out != nil {
+					walk(out, found, depth+1)
+				}
+			}
+		}
+		if h, ok := d.(meta.HasNotifications); ok {
+			for _, n := range h.Notifications() {
+				walk(n, found, depth+1)
+			}
+		}
+	}
+	found := map[string]bool{}
+	walk(m, found, 0)
+	for _, neighbour := range []string{"keep", "after", "act", "note"} {
+		if (strings.Contains(tp.text, " "+neighbour+" {") || strings.Contains(tp.sub, " "+neighbour+" {")) && !found[neighbour] {
+			extra = "unguarded-neighbour-lost"
+		}
+	}
 	var cur meta.Meta = m
 	for _, seg := range strings.Split(tp.probe, "/") {
 		d := meta.Find(cur, seg)
 		if d == nil {
-			return false, ""
+			return false, extra
 		}
 		cur = d
 	}
-	return true, ""
+	return true, extra
 }
 
 func (p *c11) Run(raw json.RawMessage) eng.Result {
